@@ -367,6 +367,11 @@ func (w *World) HeldHeap() string { return w.heap("Held", "(Array Int Int)") }
 func (w *World) FAddr(structT types.Type, idx int) string {
 	info := w.structInfoOf(structT)
 	name := fmt.Sprintf("faddr_%s_%d", info.name, idx)
+	if _, ok := w.funDecls[name]; !ok {
+		// the address of an inline struct field: injective, tagged, negative, as old as its enclosing object
+		w.axioms = append(w.axioms, fmt.Sprintf("(assert (forall ((x Int)) (! (and (= (fa_tag (%s x)) %d) (= (fa_base (%s x)) x) (< (%s x) 0) (= (fa_root (%s x)) (fa_root x))) :pattern ((%s x)))))",
+			name, w.faTag(structT, idx), name, name, name, name))
+	}
 	w.declFun(name, fmt.Sprintf("(declare-fun %s (Int) Int)", name))
 	return name
 }
